@@ -178,3 +178,9 @@ package journal
 //@   loop 1 invariant forall k int :: 0 <= k && k < len(old(s.fileNames)) ==> old(s.fileNames)[k] == old(old(s.fileNames)[k])
 //@   loop 1 decreases len(s.fileNames)
 //@   assigns s.fileNames, s.t
+
+// ExportToCsv: text/template execution is an assumed (total, error-returning) library call; the rows and columns of the
+// export are out of reach (C20 is not applicable). Only panic-freedom of this function's own code is claimed.
+//@ func (*Journal).ExportToCsv
+//@   props C05
+//@   requires journal != nil
